@@ -323,7 +323,7 @@ func (r *RigS) judgeResponse(o *SOpRec) {
 				}
 				t.State = "Paused"
 				t.OpPause = true
-			} else if !faulty && !t.Fuzzy && t.State == "Running" {
+			} else if !faulty && !t.Fuzzy && t.State == "Running" && !strings.Contains(o.Msg, "the task has paused") {
 				r.s.Violate("C11", "pause_rejected", "pause of the running task %s answered %d: %s", op.Task, o.Code, o.Msg)
 			}
 			t.Fuzzy = t.Fuzzy || faulty
@@ -435,13 +435,13 @@ func (r *RigS) afterOpQuiescent(o *SOpRec) {
 		after := canonSnap(sn)
 		op := &r.sc.Ops[o.Idx]
 		if after != r.snapBefore {
-			r.s.Violate("C19", "reject_changed_bookkeeping", "request %d (%s %s) was rejected with %d but the bookkeeping changed: %s -> %s", o.Idx, op.K, op.Task, o.Code, r.snapBefore, after)
+			r.s.Violate("C19", "reject_changed_bookkeeping"+r.anyClass(tasks), "request %d (%s %s) was rejected with %d but the bookkeeping changed: %s -> %s", o.Idx, op.K, op.Task, o.Code, r.snapBefore, after)
 			if op.K == "create" {
-				r.s.Violate("C10", "reject_changed_bookkeeping", "create %d (%s) was rejected with %d but the bookkeeping changed: %s -> %s", o.Idx, op.Task, o.Code, r.snapBefore, after)
+				r.s.Violate("C10", "reject_changed_bookkeeping"+r.anyClass(tasks), "create %d (%s) was rejected with %d but the bookkeeping changed: %s -> %s", o.Idx, op.Task, o.Code, r.snapBefore, after)
 			}
 		}
 		if st := r.rawStore(); st != r.storeBefore && r.noDataFlow() {
-			r.s.Violate("C19", "reject_changed_store", "request %d (%s %s) was rejected with %d but the persisted state changed: %s -> %s", o.Idx, op.K, op.Task, o.Code, trunc(r.storeBefore, 600), trunc(st, 600))
+			r.s.Violate("C19", "reject_changed_store"+r.anyClass(tasks), "request %d (%s %s) was rejected with %d but the persisted state changed: %s -> %s", o.Idx, op.K, op.Task, o.Code, trunc(r.storeBefore, 600), trunc(st, 600))
 		}
 		r.s.Probe("reject_side_effect_checked")
 	}
@@ -484,6 +484,63 @@ func (r *RigS) checkReload(tasks map[string]*meta.TaskInfo, sn server.VerifSnaps
 	}
 }
 
+// Known weak spots get their own rule names so that they can be listed as findings without hiding anything else:
+//   orphan    - the store holds a task in state Initial whose create request was answered with an error while store faults were injected
+//               (the clean-up of a failed create failed too, or the record write was applied but reported as failed)
+//   ambiguous - a store write concerning the task was applied but reported as failed (store_err_after)
+// storeFaultsNow: store faults injected in this incarnation.
+func (r *RigS) storeFaultsNow() int {
+	return r.s.Stats["fault:store_err_before"] + r.s.Stats["fault:store_err_after"] - r.storeFaultsAtStart
+}
+
+func (r *RigS) taskClass(id string, tasks map[string]*meta.TaskInfo) string {
+	if _, ok := tasks[id]; ok {
+		orphan := false
+		for _, rec := range r.st.OpLog {
+			if rec.K == "create" && rec.Task == id {
+				orphan = rec.Code != 200 && rec.Faults > 0
+			}
+		}
+		if orphan {
+			return "orphan"
+		}
+	}
+	if r.st.Rewritten[id] {
+		return "rewritten"
+	}
+	if r.st.Ambiguous[id] {
+		return "ambiguous"
+	}
+	return ""
+}
+
+func (r *RigS) classOf(tasks map[string]*meta.TaskInfo, ids ...string) string {
+	out := ""
+	for _, id := range ids {
+		switch r.taskClass(id, tasks) {
+		case "orphan":
+			return "_orphan_record_of_failed_create"
+		case "rewritten":
+			return "_record_rewritten_after_delete"
+		case "ambiguous":
+			out = "_after_ambiguous_store_error"
+		}
+	}
+	return out
+}
+
+func (r *RigS) anyClass(tasks map[string]*meta.TaskInfo) string {
+	ids := SortedKeys(tasks)
+	for id := range r.st.Ambiguous {
+		ids = append(ids, id)
+	}
+	for id := range r.st.Rewritten {
+		ids = append(ids, id)
+	}
+	sort.Strings(ids)
+	return r.classOf(tasks, ids...)
+}
+
 // checkViews (C11): API, store, memory and gauges agree; resources match the running tasks.
 func (r *RigS) checkViews(tasks map[string]*meta.TaskInfo, sn server.VerifSnapshot, o *SOpRec) {
 	g := r.gauges()
@@ -523,7 +580,12 @@ func (r *RigS) checkViews(tasks map[string]*meta.TaskInfo, sn server.VerifSnapsh
 		}
 		views = []string{apiv, stv, memv, gv}
 		if !(apiv == stv && stv == memv && memv == gv) {
-			r.s.Violate("C11", "views_disagree", "task %s after %s: api=%s store=%s memory=%s gauge=%s", id, o.K, views[0], views[1], views[2], views[3])
+			cls := r.classOf(tasks, id)
+			if cls == "" && memv == "Paused" && (stv == "Running" || stv == "Initial") && sn.Tasks[id].Reason != "" && !strings.HasPrefix(sn.Tasks[id].Reason, "manually pause") && r.storeFaultsNow() > 0 {
+				// the task stopped because of a failure while the store was failing too: Paused only in memory
+				cls = "_failure_pause_not_persisted"
+			}
+			r.s.Violate("C11", "views_disagree"+cls, "task %s after %s: api=%s store=%s memory=%s gauge=%s (reason %q)", id, o.K, views[0], views[1], views[2], views[3], sn.Tasks[id].Reason)
 		}
 		if memv != "absent" && memv != "Initial" && memv != "Running" && memv != "Paused" {
 			r.s.Violate("C11", "bad_state", "task %s is in state %q", id, memv)
@@ -534,8 +596,13 @@ func (r *RigS) checkViews(tasks map[string]*meta.TaskInfo, sn server.VerifSnapsh
 				running[uri] = append(running[uri], id)
 			}
 		}
+		if m := r.st.Tasks[id]; m != nil && memv == "Paused" && m.State == "Running" && !strings.HasPrefix(sn.Tasks[id].Reason, "manually pause") && sn.Tasks[id].Reason != "" {
+			// the task stopped itself (e.g. the downstream was too slow for its retries): legitimate, and visible with its reason
+			m.State = "Paused"
+			r.s.Probe("task_paused_itself")
+		}
 		if m := r.st.Tasks[id]; m != nil && !m.Fuzzy && m.State != "?" && memv != "absent" && memv != m.State && r.noDataFlow() && !r.targetFaulted() {
-			r.s.Violate("C11", "unexpected_state", "task %s should be %s after the accepted requests but is %s", id, m.State, memv)
+			r.s.Violate("C11", "unexpected_state", "task %s should be %s after the accepted requests but is %s (reason %q)", id, m.State, memv, sn.Tasks[id].Reason)
 		}
 	}
 	// deleted tasks leave nothing behind
@@ -546,7 +613,7 @@ func (r *RigS) checkViews(tasks map[string]*meta.TaskInfo, sn server.VerifSnapsh
 				continue
 			}
 			if strings.Contains(raw, rec.Task) {
-				r.s.Violate("C11", "delete_leftover", "task %s was deleted but the store still holds records of it", rec.Task)
+				r.s.Violate("C11", "delete_leftover"+r.classOf(tasks, rec.Task), "task %s was deleted but the store still holds records of it", rec.Task)
 			}
 		}
 	}
@@ -555,7 +622,7 @@ func (r *RigS) checkViews(tasks map[string]*meta.TaskInfo, sn server.VerifSnapsh
 		want := running[uri]
 		sort.Strings(want)
 		if int(ent.RefCnt) != len(want) || strings.Join(ent.QuitFuncs, ",") != strings.Join(want, ",") {
-			r.s.Violate("C11", "entity_refcount", "target %s: reference count %d, stop functions %v, running tasks %v", uri, ent.RefCnt, ent.QuitFuncs, want)
+			r.s.Violate("C11", "entity_refcount"+r.classOf(tasks, append(append([]string(nil), ent.QuitFuncs...), want...)...), "target %s: reference count %d, stop functions %v, running tasks %v", uri, ent.RefCnt, ent.QuitFuncs, want)
 		}
 	}
 	for uri, ts := range running {
@@ -568,7 +635,7 @@ func (r *RigS) checkViews(tasks map[string]*meta.TaskInfo, sn server.VerifSnapsh
 		if st.PCh == replicateChan {
 			task := strings.TrimSuffix(strings.TrimPrefix(st.VCh, replicateChan+"_"), "v0")
 			if t, ok := sn.Tasks[task]; !ok || t.State != "Running" {
-				r.s.Violate("C11", "reader_of_stopped_task", "task %s is not running but its operation-channel stream %s is still registered", task, st.Key())
+				r.s.Violate("C11", "reader_of_stopped_task"+r.classOf(tasks, task), "task %s is not running but its operation-channel stream %s is still registered", task, st.Key())
 			}
 			continue
 		}
@@ -578,7 +645,11 @@ func (r *RigS) checkViews(tasks map[string]*meta.TaskInfo, sn server.VerifSnapsh
 		}
 		uri := r.sc.Targets[tgt]
 		owner := ""
-		if c := r.collByID[st.Coll]; c != nil {
+		c := r.collByID[st.Coll]
+		if c == nil {
+			continue
+		}
+		{
 			for _, id := range running[uri] {
 				_, sel := server.GetShouldReadFunc(tasks[id])(&coremodel.DatabaseInfo{Name: c.DB}, collInfoOf(c.Name))
 				if sel {
@@ -587,7 +658,16 @@ func (r *RigS) checkViews(tasks map[string]*meta.TaskInfo, sn server.VerifSnapsh
 			}
 		}
 		if owner == "" {
-			r.s.Violate("C11", "reader_of_stopped_task", "stream %s is still registered although no running task on %s selects collection %d", st.Key(), uri, st.Coll)
+			cls := r.anyClass(tasks)
+			if cls == "" {
+				for _, rec := range r.st.OpLog {
+					if (rec.K == "pause" || rec.K == "delete") && rec.Code == 200 && rec.Inc == r.plan.Incarnation && st.RegStep >= rec.Issued {
+						// the stream was being registered when the stop request came (start of the collection still in progress)
+						cls = "_registration_in_flight_at_stop"
+					}
+				}
+			}
+			r.s.Violate("C11", "reader_of_stopped_task"+cls, "stream %s is still registered although no running task on %s selects collection %d", st.Key(), uri, st.Coll)
 		}
 	}
 }
@@ -627,7 +707,7 @@ func (r *RigS) checkOwnership(tasks map[string]*meta.TaskInfo, sn server.VerifSn
 					}
 				}
 				if len(owners) > 1 {
-					r.s.Violate("C10", "two_owners", "on target %s the collection %s.%s is selected by tasks %v", uri, db, c, owners)
+					r.s.Violate("C10", "two_owners"+r.classOf(tasks, owners...), "on target %s the collection %s.%s is selected by tasks %v", uri, db, c, owners)
 				}
 				// a task selects what its specification names minus its recorded exclusions
 				for _, id := range ids {
@@ -674,7 +754,7 @@ func (r *RigS) checkOwnership(tasks map[string]*meta.TaskInfo, sn server.VerifSn
 	}
 	a, b := canonBook(sn), canonBook(impl)
 	if a != b && clean {
-		r.s.Violate("C10", "bookkeeping_differs", "after %s (request %d, code %d) the duplicate-detection bookkeeping is %s but the persisted tasks imply %s", o.K, o.Idx, o.Code, a, b)
+		r.s.Violate("C10", "bookkeeping_differs"+r.anyClass(tasks), "after %s (request %d, code %d) the duplicate-detection bookkeeping is %s but the persisted tasks imply %s", o.K, o.Idx, o.Code, a, b)
 	}
 	r.s.Probe("bookkeeping_checked")
 }
